@@ -1,8 +1,12 @@
 # Table of checks: property id -> level + parts. A part is one test-binary invocation
 # (package, -test.run regex, rapid case counts per tier, process shards per tier).
 
+NOT_APPLICABLE = {}
+
 CHECKS = {
     "C05": {
+        "level_text": 'Model-based property test of the real proxyIDRingBuffer: random op sequences (rapid, shrinking) plus exhaustive enumeration of every op sequence up to length 6 (quick) / 7 (thorough) over a 9-symbol alphabet from capacities 1-3, compared with a slice model after every step and by a full API-only scan at the end. Exploration: finds divergences, never proves absence beyond the enumerated bound.',
+        "technique": 'stateful property-based testing against a reference model (rapid) + bounded exhaustive enumeration',
         "level": "exploration",
         "exhaustive_claim": False,
         "assumptions": [
@@ -15,6 +19,64 @@ CHECKS = {
              "checks": {"quick": 4000, "thorough": 30000}, "shards": {"quick": 1, "thorough": 8}},
             {"name": "exhaustive", "pkg": "proxy", "run": "^TestVF_C05_Exhaustive$", "rapid": False,
              "shards": {"quick": 4, "thorough": 16}},
+        ],
+    },
+    "C12": {
+        "level_text": 'Differential test of the real TranslationInterceptor/namespace translator against an independent protoreflect reference translator: every descriptor-enumerated structural path to a namespace-name field in every request/response/stream message of both services (through event blobs into every history event type, failure chains), alone and with a batch companion (metamorphic: shortcut must not change the result), plus random fully-populated messages under random one-to-one mappings.',
+        "technique": 'descriptor-driven path enumeration + random message generation (rapid), differential oracle against an independent reference translator, metamorphic batch-composition relation',
+        "level": "exploration",
+        "exhaustive_claim": False,
+        "assumptions": [
+            "reference rule for 'carries a namespace name': singular string fields named `namespace` or `*_namespace`, and NamespaceInfo.name (every such field in the descriptors was listed and reviewed)",
+            "hand-audited table of DataBlob fields that hold serialized history events (vfshared.EventBlobFields); unclassified blob fields stop the check",
+            "strings are valid UTF-8 (invalid UTF-8 is C17's domain); event blobs are proto3-encoded History messages",
+        ],
+        "parts": [
+            {"name": "paths", "pkg": "interceptor", "run": "^TestVF_C12_Paths$", "rapid": False,
+             "shards": {"quick": 2, "thorough": 8}},
+            {"name": "random", "pkg": "interceptor", "run": "^TestVF_C12_Random$",
+             "checks": {"quick": 4000, "thorough": 40000}, "shards": {"quick": 2, "thorough": 12}},
+        ],
+    },
+    "C13": {
+        "level_text": 'Random populated messages under random one-to-one mappings: differential equality with the reference (nothing but mapped names/keys changes), byte-identical output for messages holding only near-misses, request/response round trip; direction and start-up rejection checked on really assembled cluster connections and on the bimap/config constructors.',
+        "technique": 'property-based differential, metamorphic (near-miss/no-change) and round-trip relations (rapid)',
+        "level": "exploration",
+        "assumptions": [
+            "same reference translator and blob table as C12",
+            "round-trip clause is asserted for names in dom(m) or outside range(m), as the property's 'restores the original names' presupposes",
+        ],
+        "parts": [
+            {"name": "inprocess", "pkg": "interceptor", "run": "^TestVF_C13_InProcess$",
+             "checks": {"quick": 5000, "thorough": 40000}, "shards": {"quick": 2, "thorough": 12}},
+        ],
+    },
+    "C14": {
+        "level_text": 'Every descriptor path to a search-attribute container (typed and bare-map form, through event blobs) in both services with generated key sets and payloads: AdminService traffic must equal the reference key renaming with values untouched; WorkflowService traffic must be byte-identical and the translator must not match the method.',
+        "technique": 'descriptor-driven path enumeration + random key sets (rapid), differential oracle; exclusion checked per WorkflowService method',
+        "level": "exploration",
+        "assumptions": [
+            "containers of indexed fields = SearchAttributes messages and map<string,Payload> fields named search_attributes; fields named search_attributes of other shapes are outside the statement",
+            "key sets never contain an unmapped key equal to a mapping target (property precondition)",
+        ],
+        "parts": [
+            {"name": "paths", "pkg": "interceptor", "run": "^TestVF_C14_Paths$", "rapid": False},
+            {"name": "random", "pkg": "interceptor", "run": "^TestVF_C14_Random$",
+             "checks": {"quick": 4000, "thorough": 40000}, "shards": {"quick": 1, "thorough": 8}},
+        ],
+    },
+    "C16": {
+        "level_text": 'Every namespace-name path of every unary request type of both services: a forbidden name at exactly that path (allowed elsewhere) must yield PermissionDenied without reaching the handler, an all-allowed request must reach it unchanged; with/without translation and bypass header; random multi-path combinations.',
+        "technique": 'descriptor-driven path enumeration + random combinations (rapid), truth-table oracle from the statement',
+        "level": "exploration",
+        "assumptions": [
+            "empty-string namespace fields are not asserted either way (statement silent; the code refuses them)",
+            "in-process layer chains the real TranslationInterceptor before the real AccessControlInterceptor; the wiring layer checks the real order",
+        ],
+        "parts": [
+            {"name": "paths", "pkg": "interceptor", "run": "^TestVF_C16_Paths$", "rapid": False},
+            {"name": "random", "pkg": "interceptor", "run": "^TestVF_C16_Random$",
+             "checks": {"quick": 4000, "thorough": 40000}, "shards": {"quick": 1, "thorough": 8}},
         ],
     },
 }
